@@ -46,8 +46,12 @@ type evEntry struct {
 	sender *actor.PID
 }
 
-func newEvWorld(limit int64) (*evWorld, error) {
-	e, err := actor.NewEngine(actor.NewEngineConfig())
+func newEvWorld(limit int64, remote *memRemote) (*evWorld, error) {
+	cfg := actor.NewEngineConfig()
+	if remote != nil {
+		cfg = cfg.WithRemote(remote)
+	}
+	e, err := actor.NewEngine(cfg)
 	if err != nil {
 		return nil, err
 	}
@@ -175,22 +179,38 @@ func (w *evWorld) numLog(id int) []int {
 	defer w.mu.Unlock()
 	out := make([]int, 0, len(w.logs[id]))
 	for _, en := range w.logs[id] {
-		if u, ok := en.msg.(userMsg09); ok {
-			out = append(out, u.N)
-		} else {
-			out = append(out, 4999)
+		if n, ok := userNum(en.msg); ok {
+			out = append(out, n)
 		}
 	}
 	return out
+}
+
+// userNum: the number of a user event; the engine's own events (lifecycle
+// events of actors stopped or spawned by a history, dead letters) are not
+// logged by this family; anything else shows up as 4999.
+func userNum(m any) (int, bool) {
+	switch x := m.(type) {
+	case userMsg09:
+		return x.N, true
+	case actor.ActorStoppedEvent, actor.ActorInitializedEvent, actor.ActorStartedEvent,
+		actor.DeadLetterEvent, actor.EngineRemoteMissingEvent:
+		return 0, false
+	default:
+		return 4999, true
+	}
 }
 
 // ---------------------------------------------------------------- events12
 
 type ev12Case struct {
 	Kind string `json:"kind"` // "seq" | "conc"
-	// seq
-	NPids int     `json:"npids"`
-	Hist  [][]any `json:"hist"` // ["sub", pid, obj] | ["unsub", pid, obj] | ["ev", n]
+	// seq: PID value p < 50 is the local recording actor a/p, p >= 50 is the
+	// same id a/(p-50) behind a foreign address (only with remote: the engine
+	// then has an in-memory Remoter that records what it is given)
+	NPids  int     `json:"npids"`
+	Remote bool    `json:"remote"`
+	Hist   [][]any `json:"hist"` // ["sub", pid, obj] | ["unsub", pid, obj] | ["ev", n] | ["stop", pid] | ["respawn", pid]
 	// conc
 	NSubs      int   `json:"nsubs"`
 	Counts     []int `json:"counts"`
@@ -204,6 +224,7 @@ type ev12Case struct {
 
 type ev12Obs struct {
 	Logs  [][]int `json:"logs"`
+	RLogs [][]int `json:"rlogs"` // seq: per id, what the remote was given for (foreign, id)
 	Late  []int   `json:"late"`
 	Leave []int   `json:"leave"`
 	Note  string  `json:"note,omitempty"`
@@ -216,11 +237,15 @@ func runEvents12(raw json.RawMessage) (any, error) {
 	if err := json.Unmarshal(raw, &c); err != nil {
 		return nil, err
 	}
-	w, err := newEvWorld(1 << 40)
+	var remote *memRemote
+	if c.Kind == "seq" && c.Remote {
+		remote = &memRemote{addr: "node0:1"}
+	}
+	w, err := newEvWorld(1<<40, remote)
 	if err != nil {
 		return nil, err
 	}
-	obs := ev12Obs{Logs: [][]int{}}
+	obs := ev12Obs{Logs: [][]int{}, RLogs: [][]int{}}
 	if c.Kind == "seq" {
 		// object 0 of a PID value is the *PID Spawn returned, object k > 0 a
 		// distinct *PID with the same address and id (one per (pid, k))
@@ -231,7 +256,11 @@ func runEvents12(raw json.RawMessage) (any, error) {
 		obj := func(p, o int) *actor.PID {
 			k := [2]int{p, o}
 			if objs[k] == nil {
-				objs[k] = actor.NewPID(w.e.Address(), "a/"+strconv.Itoa(p))
+				if p < 50 {
+					objs[k] = actor.NewPID(w.e.Address(), "a/"+strconv.Itoa(p))
+				} else {
+					objs[k] = actor.NewPID(foreignAddr, "a/"+strconv.Itoa(p-50))
+				}
 			}
 			return objs[k]
 		}
@@ -246,6 +275,20 @@ func runEvents12(raw json.RawMessage) (any, error) {
 				w.e.Unsubscribe(obj(num(h[1]), num(h[2])))
 			case "ev":
 				w.e.BroadcastEvent(userMsg09{num(h[1])})
+			case "stop":
+				// poison the recording actor and wait until it is gone
+				w.mu.Lock()
+				pid := w.pids[num(h[1])]
+				w.mu.Unlock()
+				select {
+				case <-w.e.Poison(pid).Done():
+				case <-time.After(10 * time.Second):
+					obs.Note = "stop did not complete"
+				}
+			case "respawn":
+				// a new recording actor under the same id (it logs into the same log:
+				// the observation is per PID value)
+				w.spawnRecorder(num(h[1]))
 			}
 			if !w.quiesce(10 * time.Second) {
 				obs.Note = "no quiescence"
@@ -254,6 +297,24 @@ func runEvents12(raw json.RawMessage) (any, error) {
 		}
 		for p := 0; p < c.NPids; p++ {
 			obs.Logs = append(obs.Logs, w.numLog(p))
+			obs.RLogs = append(obs.RLogs, []int{})
+		}
+		if remote != nil {
+			for _, sm := range remote.take() {
+				n, ok := userNum(sm.msg)
+				if !ok {
+					continue
+				}
+				id := -1
+				if s, found := strings.CutPrefix(sm.to.GetID(), "a/"); found && sm.to.GetAddress() == foreignAddr {
+					id, _ = strconv.Atoi(s)
+				}
+				if id >= 0 && id < c.NPids {
+					obs.RLogs[id] = append(obs.RLogs[id], n)
+				} else {
+					obs.Note = "remote was given a message for " + sm.to.String()
+				}
+			}
 		}
 		return obs, nil
 	}
@@ -341,7 +402,7 @@ func runUndeliv09(raw json.RawMessage) (any, error) {
 	if err := json.Unmarshal(raw, &c); err != nil {
 		return nil, err
 	}
-	w, err := newEvWorld(ud09Limit)
+	w, err := newEvWorld(ud09Limit, nil)
 	if err != nil {
 		return nil, err
 	}
